@@ -514,7 +514,8 @@ class Verdict:
 
 
 def _is_merge_error(exc_mro):
-    return 'MosMergeError' in exc_mro
+    # MosMergeError, and through it a member of the library's exception hierarchy
+    return 'MosMergeError' in exc_mro and 'MosRoMgrException' in exc_mro
 
 
 def _position_class(L, m):
@@ -560,6 +561,9 @@ def judge(pre_xml, msg_xml, post_xml, outcome, warns, exc_mro=()):
     m = interpret(mroot)
     v.msg_kind = m.kind
     mos_warns = Counter(w for w in warns if w in MOS_WARNINGS)
+    for w in warns:
+        if isinstance(w, str) and w.startswith('!outside-hierarchy:'):
+            D.append(Dev('C06', 'warning-category-outside-the-documented-hierarchy', {'category': w.split(':', 1)[1]}))
     raised = outcome == 'raise'
     changed_bytes = pre_xml != post_xml
     changed = canon(pre.root) != canon(post.root)
